@@ -47,6 +47,11 @@ type Case struct {
 	Items       []Item `json:"items"`
 	CloseMode   string `json:"close_mode"` // settled | immediate
 	ReadDelayUs int    `json:"read_delay_us"`
+	// Datagram: the connection also has an unreliable (datagram) transport, as QUIC and WebTransport connections do; reliable and
+	// partial QoS chunks still travel on the reliable one (generators keep QoS in {reliable, partial} when this is set)
+	Datagram bool `json:"datagram,omitempty"`
+	// Readers: number of goroutines calling ReadDataPoints concurrently (0 = 1)
+	Readers int `json:"readers,omitempty"`
 }
 
 func DataID(i int) *message.DataID {
@@ -174,11 +179,43 @@ type History struct {
 
 const perCall = 10 * time.Second
 
+func readLoop(rctx context.Context, rwg *sync.WaitGroup, rmu *sync.Mutex, h *History, down *iscp.Downstream, c Case) {
+	defer rwg.Done()
+	for {
+		ch, err := down.ReadDataPoints(rctx)
+		if err != nil {
+			if rctx.Err() != nil || err == context.Canceled {
+				return
+			}
+			rmu.Lock()
+			h.ReadErrs = append(h.ReadErrs, err.Error())
+			n := len(h.ReadErrs)
+			rmu.Unlock()
+			if n > 1000 {
+				return
+			}
+			if isClosedErr(err) {
+				return
+			}
+			continue
+		}
+		rmu.Lock()
+		h.Read = append(h.Read, ch)
+		rmu.Unlock()
+		if c.ReadDelayUs > 0 {
+			time.Sleep(time.Duration(c.ReadDelayUs) * time.Microsecond)
+		}
+	}
+}
+
 // Run executes the case. extraOpts are appended to the downstream options.
 func Run(c Case, w *sim.World) (*History, error) {
 	enc := iscp.EncodingNameProtobuf
 	if c.Codec == "json" {
 		enc = iscp.EncodingNameJSON
+	}
+	if c.Datagram {
+		w.Unreliable = true
 	}
 	conn, err := w.Connect(iscp.WithConnEncoding(enc))
 	if err != nil {
@@ -219,35 +256,14 @@ func Run(c Case, w *sim.World) (*History, error) {
 	var rmu sync.Mutex
 	rctx, rcancel := context.WithCancel(context.Background())
 	var rwg sync.WaitGroup
-	rwg.Add(2)
-	go func() {
-		defer rwg.Done()
-		for {
-			ch, err := down.ReadDataPoints(rctx)
-			if err != nil {
-				if rctx.Err() != nil || err == context.Canceled {
-					return
-				}
-				rmu.Lock()
-				h.ReadErrs = append(h.ReadErrs, err.Error())
-				n := len(h.ReadErrs)
-				rmu.Unlock()
-				if n > 1000 {
-					return
-				}
-				if isClosedErr(err) {
-					return
-				}
-				continue
-			}
-			rmu.Lock()
-			h.Read = append(h.Read, ch)
-			rmu.Unlock()
-			if c.ReadDelayUs > 0 {
-				time.Sleep(time.Duration(c.ReadDelayUs) * time.Microsecond)
-			}
-		}
-	}()
+	readers := c.Readers
+	if readers < 1 {
+		readers = 1
+	}
+	rwg.Add(1 + readers)
+	for ri := 0; ri < readers; ri++ {
+		go readLoop(rctx, &rwg, &rmu, h, down, c)
+	}
 	go func() {
 		defer rwg.Done()
 		for {
